@@ -361,6 +361,50 @@ tokenizer = cssutils.tokenize2.Tokenizer()
 savedTokens = []
 
 
+class _SorIterator:
+    """Passes tokens on; while armed (until the first token which is neither
+    S nor COMMENT has been passed on) an S is removed if it is followed by
+    anything in ``until`` or by a COMMENT."""
+
+    def __init__(self, tokens, types):
+        self.tokens = iter(tokens)
+        self.types = types
+        self.armed = False
+        self.until = ''
+        self.pending = []
+
+    def arm(self, until):
+        self.armed = True
+        self.until = until
+
+    def __iter__(self):
+        return self
+
+    def __next__(self):
+        if self.pending:
+            return self.pending.pop(0)
+        token = next(self.tokens)
+        if not self.armed:
+            return token
+        if token[0] == self.types.S:
+            try:
+                next_ = next(self.tokens)
+            except StopIteration:
+                return token
+            if next_[1] in self.until or next_[0] == self.types.COMMENT:
+                # omit S as e.g. ``,`` has been found or pass COMMENT
+                return next_
+            self.pending.append(next_)
+            return token
+        elif token[0] == self.types.COMMENT:
+            # pass COMMENT
+            return token
+        else:
+            # normal mode again
+            self.armed = False
+            return token
+
+
 class ProdParser:
     """Productions parser."""
 
@@ -401,34 +445,17 @@ class ProdParser:
             return text
 
     def _SorTokens(self, tokens, until=',/'):
-        """New tokens generator which has S tokens removed,
-        if followed by anything in ``until``, normally a ``,``."""
-        for token in tokens:
-            if token[0] == self.types.S:
-                try:
-                    next_ = next(tokens)
-                except StopIteration:
-                    yield token
-                else:
-                    if next_[1] in until:
-                        # omit S as e.g. ``,`` has been found
-                        yield next_
-                    elif next_[0] == self.types.COMMENT:
-                        # pass COMMENT
-                        yield next_
-                    else:
-                        yield token
-                        yield next_
+        """New tokens iterator which has S tokens removed,
+        if followed by anything in ``until``, normally a ``,``.
 
-            elif token[0] == self.types.COMMENT:
-                # pass COMMENT
-                yield token
-            else:
-                yield token
-                break
-        # normal mode again
-        for token in tokens:
-            yield token
+        (One iterator which is armed again when asked for a second time:
+        wrapping the result once more for every value of a long list made
+        ``next()`` recurse through as many generators as there were values.)
+        """
+        if not isinstance(tokens, _SorIterator):
+            tokens = _SorIterator(tokens, self.types)
+        tokens.arm(until)
+        return tokens
 
     def parse(  # noqa: C901
         self,
